@@ -82,7 +82,7 @@ class Context:
         return self._orig
 
     def symex(self, **kw):
-        return SymEx(self.prog, **kw)
+        return SymEx(self.prog, eff=self.eff, **kw)
 
     def where(self, nid, line=None):
         b = self.prog.bodies.get(nid)
